@@ -36,6 +36,9 @@ type compiler struct {
 	// blockExit is the break or continue that ended a helper's block during
 	// the statement being evaluated
 	blockExit exitBlockStatment
+	// run identifies this execution of the program; the copies made for helper
+	// blocks share it
+	run *int
 }
 
 func (c *compiler) compile() (string, error) {
@@ -68,7 +71,7 @@ func (c *compiler) compile() (string, error) {
 			if c.curStmt != nil {
 				s = c.curStmt
 			}
-			if bs := blockFailureOf(err, c.program); bs != nil {
+			if bs := blockFailureOf(err, c.run); bs != nil {
 				s = bs
 			}
 			return "", fmt.Errorf("line %d: %w", s.T().LineNumber, err)
